@@ -289,12 +289,14 @@ fn payload(fmt: &str, pl: &str, vs: &Vals, r: &mut Rng, ascii_only: bool) -> Vec
         }
         "URLEncoded" | "Query" | "Cookie" => {
             let sep = if fmt == "Cookie" { "; " } else { "&" };
-            let (fa, fnn) = (format!("a={aenc}"), format!("n={n}"));
+            // (in a query or a form a field name may be written with percent-escapes as well: the name it denotes is the decoded one)
+            let (ka, kn) = if fmt != "Cookie" && r.chance(1, 3) { (*r.pick(&["%61", "a"]), *r.pick(&["%6e", "%6E"])) } else { ("a", "n") };
+            let (fa, fnn) = (format!("{ka}={aenc}"), format!("{kn}={n}"));
             match pl {
                 "v1" | "v2" => if swap { format!("{fnn}{sep}{fa}") } else { format!("{fa}{sep}{fnn}") },
                 "extra" => if swap { format!("zz=1{sep}{fa}{sep}{fnn}") } else { format!("{fa}{sep}{fnn}{sep}zz=1") },
-                "syntax" => format!("{fa}{sep}n"),
-                "wrongtype" => if swap { format!("n={badn}{sep}{fa}") } else { format!("{fa}{sep}n={badn}") },
+                "syntax" => format!("{fa}{sep}{kn}"),
+                "wrongtype" => if swap { format!("{kn}={badn}{sep}{fa}") } else { format!("{fa}{sep}{kn}={badn}") },
                 "missing" => fa,
                 _ => String::new(),
             }.into_bytes()
@@ -428,11 +430,15 @@ pub fn run(scn: &Value) -> Value {
     // executed twice: as the first request of a connection object, and as the request that follows one which carried a query, a body, a
     // Content-Type, cookies and credentials (none of which the request under test may see) -- what Session::manage does between requests.
     // The second execution is reported when it differs from the first.
-    let exec = |after: bool| -> (Vec<u8>, &'static str, Vec<Vec<Got>>) {
+    // ... and a third time with the request arriving in pieces: the head in one read, the body in up to three more
+    let pieces: Vec<Vec<u8>> = { let hl = raw.len() - body.len(); let mut v = vec![raw[..hl].to_vec()];
+        if !body.is_empty() { let (a, b) = (body.len() / 3, 2 * body.len() / 3 + 1); for part in [&body[..a], &body[a..b.min(body.len())], &body[b.min(body.len())..]] { if !part.is_empty() { v.push(part.to_vec()) } } }
+        v };
+    let exec = |after: bool, in_pieces: bool| -> (Vec<u8>, &'static str, Vec<Vec<Got>>) {
         LOG.with(|l| l.borrow_mut().clear());
         let (out, how) = util::block_on(async {
             let mut req = v::VRequest::new();
-            let mut rd: &[u8] = &raw;
+            let mut rd = util::ScriptedReader::new(if in_pieces { pieces.clone() } else { vec![raw.clone()] });
             if after {
                 let mut pre: &[u8] = b"POST /zz/prelude?a=stale&n=77 HTTP/1.1\r\nHost: prelude\r\nContent-Type: application/json\r\nCookie: a=stale; n=77\r\nAuthorization: Bearer stale\r\nMax-Forwards: 9\r\nContent-Length: 20\r\n\r\n{\"a\":\"stale\",\"n\":77}";
                 if !matches!(req.read(&mut pre).await, Ok(Some(()))) { return (Vec::new(), "prelude-refused") }
@@ -450,8 +456,11 @@ pub fn run(scn: &Value) -> Value {
         });
         (out, how, LOG.with(|l| l.borrow().clone()))
     };
-    let first = exec(false);
-    let second = exec(true);
+    let first = exec(false, false);
+    let second = { let s2 = exec(true, false); let same = |x: &(Vec<u8>, &'static str, Vec<Vec<Got>>), y: &(Vec<u8>, &'static str, Vec<Vec<Got>>)| {
+                       let strip = |o: &[u8]| -> Vec<u8> { String::from_utf8_lossy(o).lines().filter(|l| !l.to_ascii_lowercase().starts_with("date:")).collect::<Vec<_>>().join("\n").into_bytes() };
+                       strip(&x.0) == strip(&y.0) && x.1 == y.1 && format!("{:?}", x.2) == format!("{:?}", y.2) };
+                   if same(&first, &s2) && body.len() >= 2 { exec(false, true) } else { s2 } };
     let strip = |o: &[u8]| -> Vec<u8> { String::from_utf8_lossy(o).lines().filter(|l| !l.to_ascii_lowercase().starts_with("date:")).collect::<Vec<_>>().join("\n").into_bytes() };
     let differs = strip(&first.0) != strip(&second.0) || first.1 != second.1 || format!("{:?}", first.2) != format!("{:?}", second.2);
     let (out, how, log) = if differs { second } else { first };
